@@ -19,6 +19,12 @@ theorem decode_iff (bs : List UInt8) (c n : Nat) :
 theorem decode_wf37 (bs : List UInt8) : (decode bs).map (·.2) = wf37 bs :=
   PV.Lemmas.Utf8.decode_map_snd_eq_wf37 bs
 
+/-- What follows the first four bytes — however much of it, 2^32 bytes and more included — cannot change the decoder's answer:
+    the answer for the rest of a text of any length is the answer for its first four bytes.  (The correspondence run uses this to
+    say what the real iterator must return at the front of 2^32+k-byte and 2^33+k-byte texts, which the model cannot hold.) -/
+theorem decode_window (bs : List UInt8) : decode bs = decode (bs.take 4) :=
+  (PV.Lemmas.Utf8.decode_take4 bs).symm
+
 /-- The iterator loop returns `cs` exactly when the text is the concatenated encoding of the
     scalar values `cs`. -/
 theorem decodeAll_iff (bs : List UInt8) (cs : List Nat) :
@@ -41,6 +47,7 @@ theorem filter_keeps_exactly_wellformed (ls : List (List UInt8)) :
 -- non-vacuity: concrete windows on both sides of each boundary
 example : decode [0xC3, 0xA9] = some (0xE9, 2) := by decide
 example : decode [0xC0, 0xAF] = none := by decide              -- overlong
+example : decode ([0xE2, 0x82, 0xAC] ++ List.replicate 1000 0) = some (0x20AC, 3) := by rw [decode_window]; decide
 example : decode [0xED, 0xA0, 0x80] = none := by decide        -- surrogate
 example : decode [0xF4, 0x90, 0x80, 0x80] = none := by decide  -- > U+10FFFF
 example : decode [0xF0, 0x9F, 0x98, 0x80] = some (0x1F600, 4) := by decide
